@@ -117,6 +117,15 @@ def gen_cases(rng, tier):
             first = [r.choice(raw) for _ in range(r.randint(0, 2))]
             extra = [r.choice(raw) for _ in range(r.randint(1, 3))]
             case["records"] = recs[:r.randint(0, 1)] + [["rec", ds, [V.I(r.below(100)), ["list", first]], {"_append": {"items": extra}, "_generated": V.gen_dt_spec(r, tzkinds=("utc",), fold_ok=False)}]]
+        elif w < 11:
+            # two types of ONE name whose identifiers (name + first four bytes of the hash) coincide: each definition
+            # has to be in the stream before the first record that uses it
+            cx = [["t/x", [["stringlist", "a"], ["string", "b"]]], ["t/x", [["string", "a"], ["string", "listb"]]]]
+            mk = lambda d: V.gen_record(r, descspec=d, types=types)   # noqa: E731
+            seq = [mk(r.choice(cx)) for _ in range(r.randint(2, 5))]
+            if len({repr(s_[1]) for s_ in seq}) == 1:
+                seq.append(mk(cx[0] if seq[0][1] == cx[1] else cx[1]))
+            case["records"] = recs[:r.randint(0, 1)] + seq
         cases.append(case)
     r = rng.fork("ref2impl")
     for _ in range(n):
@@ -139,6 +148,14 @@ def gen_cases(rng, tier):
             # field produced in earlier releases: the frame (and the identifier) carry the duplicate, records one value
             case["dup"] = r.below(nf)
         cases.append(case)
+    # a field value larger than a megabyte (the format has no limit below 2^32 - 1 bytes per string / binary)
+    for t, size in (("bytes", 1100000), ("string", 1048577)):
+        cases.append({"kind": "ref2impl", "desc": ["test/big", [[t, "blob"], ["varint", "n"]]],
+                      "records": [{"vals": [["zeros", size] if t == "bytes" else ["spaces", size], V.I(1)],
+                                   "meta": {"_source": V.NONE, "_classification": V.NONE,
+                                            "_generated": ["dt", [2020, 1, 2, 3, 4, 5, 6], "utc", 0]},
+                                   "shape": "normal", "extra": 1, "version": 1}],
+                      "seed": 1, "minimal": True, "rehdr": False, "big": True})
     for fn in sorted(os.listdir(GOLDEN)) if os.path.isdir(GOLDEN) else []:
         if fn.endswith(".json"):
             cases.append({"kind": "golden", "file": fn[:-5]})
@@ -173,6 +190,10 @@ def spec_to_pv(v):
         return ["S", v[1]]
     if k == "bytes":
         return ["Y", v[1]]
+    if k == "zeros":
+        return ["Y", "00" * int(v[1])]
+    if k == "spaces":
+        return ["S", "00000020" * int(v[1])]
     if k == "dt":
         y, mo, d, h, mi, s, us = v[1]
         tz = v[2]
@@ -348,15 +369,19 @@ def decode_independent(data):
         return ["?", type(v).__name__]
 
     out = []
+    bound = {}           # identifier -> field list of the definition most recently seen for it
     try:
         frames, _ = W.split_frames(data)
         for off, body in frames[1:]:
             top = unpack(body)
             sub, payload = unpack(top[2])
-            if sub == 1:
-                out.append([None, [rv(x) for x in payload[1]]])
+            if sub == 2:
+                nm, fs = payload
+                bound[(nm, RC.ident_hash(nm, fs))] = [[t, n] for t, n in fs]
+            elif sub == 1:
+                out.append([None, [rv(x) for x in payload[1]], bound.get(tuple(payload[0]))])
             elif sub == 0x12:
-                out.append(["G", [[rv(x) for x in m[1]] for m in payload[1]]])
+                out.append(["G", [[rv(x) for x in m[1]] for m in payload[1]], [bound.get(tuple(m[0])) for m in payload[1]]])
     except Exception:          # noqa: BLE001
         return None
     return out
@@ -501,6 +526,16 @@ def oracle(case, obs):
         tops = [h for h in held]
         if len(tops) != len(case["records"]):
             return f"{len(case['records'])} records written, an independent decoder finds {len(tops)} record frames"
+        # the definition in force for each record frame (the one most recently written for its identifier) is the
+        # definition of the record that was written
+        for i, (spec, h) in enumerate(zip(case["records"], tops)):
+            want_defs = [spec[1][1]] if spec[0] == "rec" else [m[1][1] for m in spec[2]]
+            got_defs = [h[2]] if spec[0] == "rec" else h[2]
+            uniq = lambda fs: [f for j, f in enumerate(fs) if f[1] not in [g[1] for g in fs[:j]]]   # noqa: E731
+            for wd, gd in zip(want_defs, got_defs):
+                if gd is None or uniq([list(f) for f in gd]) != uniq([list(f) for f in wd]) and [list(f) for f in gd] != [list(f) for f in wd]:
+                    return (f"record {i}: the definition in force for its identifier when its frame is reached declares "
+                            f"{gd}, the record was written with {wd}")
         for i, mi, slot, kind, tv in obs.get("typed", []):
             if tv == ["?"]:
                 continue
